@@ -382,11 +382,13 @@ func (p *parser) expression(prec int) (Node, error) {
 					return nil, err
 				}
 
-				if right != nil {
-					node = &ProjectArrayNode{
-						Left:  node,
-						Right: right,
-					}
+				if right == nil {
+					right = CurrentNode{}
+				}
+
+				node = &ProjectArrayNode{
+					Left:  node,
+					Right: right,
 				}
 			}
 		case lexer.OrToken:
@@ -1791,11 +1793,13 @@ func (p *parser) primaryExpression() (Node, error) {
 					return nil, err
 				}
 
-				if right != nil {
-					node = &ProjectArrayNode{
-						Left:  node,
-						Right: right,
-					}
+				if right == nil {
+					right = CurrentNode{}
+				}
+
+				node = &ProjectArrayNode{
+					Left:  node,
+					Right: right,
 				}
 			}
 		} else {
